@@ -28,6 +28,12 @@ def main():
         forbidden = core.scan_forbidden()
         thm = core.theorem_check(pid) if build_ok else {"theorems": [], "ok": False, "log": build_log,
                                                         "file": f"coq/Properties/{pid}.v", "axioms": []}
+        if build_ok and tier == "thorough" and thm.get("ok"):
+            chk = core.coqchk(pid)
+            thm["coqchk"] = chk
+            if not chk["ok"]:
+                thm["ok"] = False
+                thm["log"] = "coqchk failed: " + chk["tail"]
         out = core.Outcome()
         replay = json.load(open(args.replay)) if args.replay else None
         if build_ok:
